@@ -57,7 +57,7 @@ def check_case(ctx, r, canon_cache, backends=None):
     if pv != canon_cache[c][1]:
         ctx.violation(dict(key, what="different-py_val"), {"text": s, "canon": c, "py": str(pv)[:300], "canon_py": str(canon_cache[c][1])[:300], "case": r})
     if backends is not None and s != c:
-        for name, why in backends.equivalent(c, s):
+        for name, why in backends.equivalent(c, s, (key, r)):
             ctx.violation(dict(key, what="backend-differs", backend=name), {"text": s, "canon": c, "why": why, "case": r})
     if s != c:
         ctx.nontriv(r["text"])
@@ -91,9 +91,17 @@ def run(ctx):
     for i, r in enumerate(res.records):
         use_be = be if (be is not None and (ctx.tier == "thorough" or i % 7 == 0)) else None
         check_case(ctx, r, cache, use_be)
+    if be is not None:
+        for name, c, s, sql1, sql2, v, meta in be.finish():
+            key, r = meta
+            ctx.violation(dict(key, what="backend-differs", backend=name, verdict=v), {"text": s, "canon": c, "sql_canon": sql1, "sql": sql2, "case": r})
     ctx.exhaustive = True
 
 
 def replay(ctx, rep):
     be = load_backends()
-    check_case(ctx, rep["detail"]["case"], {}, be.Backends(ctx) if be else None)
+    b = be.Backends(ctx) if be else None
+    check_case(ctx, rep["detail"]["case"], {}, b)
+    if b is not None:
+        for name, c, s, sql1, sql2, v, meta in b.finish():
+            ctx.violation(dict(meta[0], what="backend-differs", backend=name, verdict=v), {"text": s, "canon": c, "sql_canon": sql1, "sql": sql2, "case": meta[1]})
